@@ -127,3 +127,35 @@ Theorem C07_cache_retired_inert : forall bidx ops ops' key now,
   lookup bidx (fold_left (step bidx) ops' (run bidx (ops ++ [ORetire]))) key now = [].
 Proof. exact cache_retired_inert. Qed.
 Print Assumptions C07_cache_retired_inert.
+
+(* UDP existing-session shortcut: it applies only to a session from exactly the same socket
+   address whose cipher opens the datagram *)
+Theorem C07_shortcut_same_peer : forall opens ss ip port s,
+  shortcut same_peer opens ss ip port = Some s ->
+  In s ss /\ us_ip s = ip /\ us_port s = port /\ opens s = true.
+Proof. exact shortcut_same_peer. Qed.
+Print Assumptions C07_shortcut_same_peer.
+
+(* sessions from other sockets (same IP or not, ciphers that open the datagram or not) never
+   influence the attribution of a first segment *)
+Theorem C07_shortcut_other_sockets_irrelevant : forall opens ss ip port disc,
+  (forall s, In s ss -> us_ip s = ip -> us_port s <> port) ->
+  udp_attribute same_peer opens ss ip port disc = disc.
+Proof. exact shortcut_other_sockets_irrelevant. Qed.
+Print Assumptions C07_shortcut_other_sockets_irrelevant.
+
+(* every new UDP session is attributed what discovery answers for its first segment, for every
+   history of session openings, every order, every family of session ciphers (shared credentials) *)
+Theorem C07_existing_session_shortcut_sound : forall D evs ss,
+  sessions_ok D ss ->
+  (forall e, In e evs -> ev_disc e = D (ev_ip e) (ev_port e)) ->
+  snd (udp_run same_peer ss evs) = map ev_disc evs /\ sessions_ok D (fst (udp_run same_peer ss evs)).
+Proof. exact existing_session_shortcut_sound. Qed.
+Print Assumptions C07_existing_session_shortcut_sound.
+
+(* and the port comparison is necessary for that *)
+Theorem C07_shortcut_port_needed :
+  exists evs D, sessions_ok D [] /\ (forall e, In e evs -> ev_disc e = D (ev_ip e) (ev_port e)) /\
+    snd (udp_run ip_only_peer [] evs) <> map ev_disc evs.
+Proof. exact shortcut_port_needed. Qed.
+Print Assumptions C07_shortcut_port_needed.
